@@ -38,6 +38,16 @@ def handle (st : St) (line : String) : St × String :=
       let ran := (y0.srv.find n).isSome && (y0.activity n).quiet
       ({ st with bt := y.srv, btAct := y.act }, showResp r ++ (if showResp r == "ok" then (if ran then " ran" else " skipped") else ""))
     | none => (st, "bad-op")
+  | ["bt", "gentoken", n] =>
+    match Bytes.ofHex n with
+    | some n =>
+      let (_, r) := Emu.Bt.xstep ⟨st.bt, st.btAct⟩ (.genToken n)
+      (st, showResp r ++ (if showResp r == "ok" then " " ++ Bytes.toHex (Emu.Bt.consistencyToken n) else ""))
+    | none => (st, "bad-op")
+  | ["bt", "checktoken", n, t] =>
+    match Bytes.ofHex n, Bytes.ofHex t with
+    | some n, some t => (st, showResp (Emu.Bt.xstep ⟨st.bt, st.btAct⟩ (.checkToken n t)).2)
+    | _, _ => (st, "bad-op")
   | "bt" :: rest =>
     match (do let op ← pBtOp; atEnd; pure op : P Emu.Bt.Op).run rest with
     | some (op, _) =>
